@@ -476,20 +476,57 @@ func g1NonNilSide(r *Repo, rep *Report, b *Body, cond ast.Expr, op token.Token, 
 		}
 		break
 	}
+	var side []ast.Stmt
 	if ifs == nil {
+		// a case of a tagless switch is the condition of an if / else-if chain
+		if cc, isCase := b.Parent[cond].(*ast.CaseClause); isCase && len(cc.List) == 1 {
+			if blk, isBlk := b.Parent[cc].(*ast.BlockStmt); isBlk {
+				if sw, isSw := b.Parent[blk].(*ast.SwitchStmt); isSw && sw.Tag == nil {
+					idx := -1
+					for i, cl := range sw.Body.List {
+						if cl == ast.Stmt(cc) {
+							idx = i
+						}
+					}
+					if idx >= 0 {
+						after := stmtsAfter(b, sw)
+						if op == token.NEQ {
+							side = append(append([]ast.Stmt{}, cc.Body...), after...)
+							if terminates(info, cc.Body) {
+								side = cc.Body
+							}
+						} else {
+							if !terminates(info, cc.Body) {
+								report("unrecognised", c, o, "is tested with == nil but both outcomes continue", cond.Pos())
+								return false
+							}
+							rest := &ast.SwitchStmt{Switch: sw.Switch, Body: &ast.BlockStmt{Lbrace: sw.Body.Lbrace, List: sw.Body.List[idx+1:], Rbrace: sw.Body.Rbrace}}
+							side = append([]ast.Stmt{rest}, after...)
+						}
+						return g1SideOK(b, side, v, c, o, cond, report)
+					}
+				}
+			}
+		}
 		report("unrecognised", c, o, "is compared with nil outside an if statement", cond.Pos())
 		return false
 	}
-	var side []ast.Stmt
 	if op == token.NEQ {
 		side = ifs.Body.List
 	} else {
 		// v == nil {A} else {B}: B is the non-nil side; without else, the code after the if is.
+		// an else branch that does not leave goes on with what follows the whole if statement
+		withRest := func(l []ast.Stmt) []ast.Stmt {
+			if terminates(info, l) {
+				return l
+			}
+			return append(append([]ast.Stmt{}, l...), stmtsAfter(b, ifs)...)
+		}
 		switch e := ifs.Else.(type) {
 		case *ast.BlockStmt:
-			side = e.List
+			side = withRest(e.List)
 		case *ast.IfStmt:
-			side = []ast.Stmt{e}
+			side = withRest([]ast.Stmt{e})
 		default:
 			if !terminates(info, ifs.Body.List) {
 				report("unrecognised", c, o, "is tested with == nil but both outcomes continue", cond.Pos())
@@ -498,6 +535,13 @@ func g1NonNilSide(r *Repo, rep *Report, b *Body, cond ast.Expr, op token.Token, 
 			side = stmtsAfter(b, ifs)
 		}
 	}
+	return g1SideOK(b, side, v, c, o, cond, report)
+}
+
+// g1SideOK judges the statements that run when the error is not nil.
+func g1SideOK(b *Body, side []ast.Stmt, v types.Object, c *ast.CallExpr, o types.Object, cond ast.Expr,
+	report func(string, *ast.CallExpr, types.Object, string, ...token.Pos)) bool {
+	info := b.Pkg.TypesInfo
 	ok2 := true
 	// (1) no nil-error return in the non-nil region unless classified
 	var walk func(list []ast.Stmt, classified bool)
@@ -532,7 +576,18 @@ func g1NonNilSide(r *Repo, rep *Report, b *Body, cond ast.Expr, op token.Token, 
 				walk(x.Body.List, classified)
 			case *ast.SwitchStmt:
 				for _, cc := range x.Body.List {
-					walk(cc.(*ast.CaseClause).Body, classified)
+					cl := classified
+					if x.Tag == nil {
+						for _, ce := range cc.(*ast.CaseClause).List {
+							if nodeHas(ce, func(m ast.Node) bool {
+								k, ok := m.(*ast.CallExpr)
+								return ok && isClassifier(info, k) && usesVar(info, k, v)
+							}) {
+								cl = true
+							}
+						}
+					}
+					walk(cc.(*ast.CaseClause).Body, cl)
 				}
 			}
 		}
